@@ -225,7 +225,7 @@ def main(ctx):
     fams, sizes = families_of(cfg)
     expected = sum(min(n, sizes.get(a, 10 ** 9)) for a, n in fams)
     common.log("TLC generates %d cases (%s)" % (expected, " ".join("%s:%d" % (a, min(n, sizes.get(a, 10 ** 9))) for a, n in fams)))
-    r = common.run_tlc(ctx, SPEC, cfg, workers=4, timeout=240 if ctx.quick else 1500, xmx="3g",
+    r = common.run_tlc(ctx, SPEC, cfg, workers=4, timeout=420 if ctx.quick else 1500, xmx="3g",
                        env={"FV_SEED": ctx.seed % 10000}, extra=("-continue",), deadlock=False)
     if r.timed_out:
         raise common.ToolError("TLC timed out on %s after %.0fs" % (cfg, r.wall))
@@ -268,7 +268,7 @@ def main(ctx):
     byfam = {}
     for i, c in enumerate(cases):
         byfam.setdefault(c["fam"], []).append(i)
-    n_compile = 600 if ctx.quick else 6000
+    n_compile = 600 if ctx.quick else 4000
     chosen = set()
     share = max(1, n_compile // max(1, len([f for f in byfam if f != "M"])))
     for f, idxs in sorted(byfam.items()):
@@ -355,7 +355,7 @@ def main(ctx):
 
     # ---- every case with an API-level disagreement that was not compiled yet is compiled too (capped), so
     #      that the finding is confirmed (or refuted) on the font
-    kfcap, newcap = (60, 300) if ctx.quick else (1500, 4000)
+    kfcap, newcap = (60, 300) if ctx.quick else (600, 3000)
     extra_idx, nk, nn = [], 0, 0
     for i in recompile:
         isnew = "C16-NEW:" in api_bad[i]
